@@ -26,6 +26,9 @@ package grpcgcp
 //@ autotag term gcp_picker.go C06
 //@ autotag term gcp_multiendpoint.go C16
 //@ autotag race * C10
+// the round-robin cursor must be advanced atomically and the wait must not deadlock or outlive the context (C09)
+//@ autotagfn race getSubConnRoundRobin C10 C09
+//@ autotagfn lock getSubConnRoundRobin C06 C09
 
 // ---------------------------------------------------------------- protection classes (C10)
 
@@ -194,6 +197,8 @@ package grpcgcp
 //@   onassign scRef asserts [C09.assign] scRef == gb.scRefList[gb.rrRefId % len(gb.scRefList)] && gb.rrRefId == wrap32u(old(gb.rrRefId) + 1)
 //@   interruptible_by ctx
 //@   requires len(gb.scRefList) > 0
+// the slot is handed out only once it was seen READY under the lock, unless the wait ended because the call's context did
+//@   ensures [C09.ready-or-ctx] gb.scStates[result.subConn] == connectivity.Ready || selected() == ctx_done(ctx)
 //@   ensures result != nil
 //@   loop 1 blocking
 //@ func (gb *gcpBalancer) addSubConn
@@ -534,5 +539,6 @@ package grpcgcp
 // a nil context is outside the contract of the context package itself (context.WithValue panics on a nil parent)
 //@ func FromMEContext
 //@   requires ctx != nil
+//@   ensures [C15.name-from-ctx] $ret1 == typeis(ctx_value(ctx, iface(meKey)), string) && ($ret1 ==> $ret0 == ctx_value(ctx, iface(meKey)).(string))
 //@ func NewMEContext
 //@   requires ctx != nil
